@@ -2,6 +2,7 @@
 import SevenZ.Driver.Util
 import SevenZ.Model.Crc32
 import SevenZ.Model.Crash
+import SevenZ.Model.CrashSession
 namespace SevenZ.Driver
 open SevenZ
 
@@ -9,6 +10,10 @@ def crcHandler (op : String) (args : List String) : Option String :=
   match op, args with
   | "crc.u", [v, hx] => do pure (toString (crc32Update (← v.toNat?) (← parseHex hx)))
   | "crc.c", [v, bs, hx] => do pure (toString (Impl.calculateCrc32 (← parseHex hx) (← v.toNat?) (← bs.toNat?)))
+  | "crash.gate", [hx] => do
+    pure (match Impl.headerGate (← parseHex hx) with
+      | none => "none"
+      | some hdr => s!"ok {hdr.length} {crc32 hdr}")
   | "crash.ok", [hx] => do pure (if Impl.startHeaderOk (← parseHex hx) then "1" else "0")
   | _, _ => none
 
